@@ -36,11 +36,15 @@ random histories of `convert` / `reset` (every output and the state afterwards; 
   * `C11X_convert_after_reset_full`, `C11X_side_outputs_not_read`   the side outputs: after `reset()` a conversion leaves
                                   the same `md.toc` / `md.toc_tokens` (and tables) as on a new instance; they are
                                   written, never read;
+  * `C11X_meta_fresh_is_convertM`, `C11X_meta_convert_after_reset`, `C11X_meta_off`   the same with the `meta`
+                                  extension (`convertSM`): on a new instance — hence after `reset()` — the answer and
+                                  `md.Meta` are those of the one-shot model `PipelineM.convertM`;
   * `C11X_blank_keeps_state`      a blank document is answered before any stage runs and leaves the state;
   * `C11X_untracked_is_ood`, `C11X_tracked_iff_ok`   the model never guesses: after a conversion that did not return
                                   normally (or that is outside the modelled domain) it answers `ood` until `reset()`.
 -/
 import MdVerif.Lemmas.InstanceXTree
+import MdVerif.Lemmas.InstanceXMeta
 import MdVerif.Props.C11
 
 namespace MdVerif.InstanceX
@@ -315,6 +319,36 @@ example : (runS { toc := true } {} fresh [.convert "# A".toList, .convert "b".to
 example : (runS { toc := true } {} fresh [.convert "# A".toList, .convert " ".toList]).toc =
       some "<div class=\"toc\">\n<ul>\n<li><a href=\"#a\">A</a></li>\n</ul>\n</div>\n".toList ∧
     (runS { toc := true } {} fresh [.convert "# A".toList, .reset, .convert " ".toList]).toc = some [] := by
+  decide +kernel
+
+/-! ### with the `meta` extension: `md.Meta` -/
+
+/-- **On a new instance `convertSM` is `convertM`**: the answer and the side output `md.Meta` are those of the
+    one-shot model with the `meta` extension (`Model/PipelineM.lean`). -/
+theorem C11X_meta_fresh_is_convertM (on : Bool) (x : Exts) (cfg : Cfg) (s : Str) :
+    ((convertSM on x cfg fresh s).1, (convertSM on x cfg fresh s).2.metaData) = PipelineM.convertM on x cfg s :=
+  convertSM_fresh on x cfg s
+
+/-- **C11 with `Meta`.**  After any history (from any state) and `reset()`, `convert(s)` gives the answer and the
+    `md.Meta` of a new instance — and leaves the same state altogether (`rfl`: `resetS` gives `fresh`). -/
+theorem C11X_meta_convert_after_reset (on : Bool) (x : Exts) (cfg : Cfg) (st0 : MdSt) (h : List Ev) (s : Str) :
+    convertSM on x cfg (resetS (runSM on x cfg st0 h)) s = convertSM on x cfg fresh s ∧
+    ((convertSM on x cfg (resetS (runSM on x cfg st0 h)) s).1,
+     (convertSM on x cfg (resetS (runSM on x cfg st0 h)) s).2.metaData) = PipelineM.convertM on x cfg s :=
+  ⟨rfl, convertSM_fresh on x cfg s⟩
+
+/-- without the `meta` extension `convertSM` is `convertS` -/
+theorem C11X_meta_off (x : Exts) (cfg : Cfg) (st : MdSt) (s : Str) : convertSM false x cfg st s = convertS x cfg st s :=
+  convertSM_off x cfg st s
+
+/-- `md.Meta` is overwritten by every conversion that reaches the preprocessors (no accumulation) … -/
+example : (runSM true {} {} fresh [.convert "Title: A\n\nbody".toList]).metaData = [("title".toList, ["A".toList])] ∧
+    (runSM true {} {} fresh [.convert "Title: A\n\nbody".toList, .convert "plain".toList]).metaData = [] := by
+  decide +kernel
+/-- … but a blank document leaves the `Meta` of the previous document; with `reset()` it is empty -/
+example : (runSM true {} {} fresh [.convert "Title: A\n\nbody".toList, .convert " ".toList]).metaData =
+      [("title".toList, ["A".toList])] ∧
+    (runSM true {} {} fresh [.convert "Title: A\n\nbody".toList, .reset, .convert " ".toList]).metaData = [] := by
   decide +kernel
 
 /-! ### the concrete model as an instance of the abstract machine (`Model/Instance.lean`, `Props/C11.lean`) -/
